@@ -227,3 +227,7 @@ func zzReplayFrom(g *Graph, events []Event) (*Graph, error) {
 	defer func() { zzPreGraph = nil }()
 	return replayEvents(events)
 }
+
+func zzItoa(n int) string { return strconv.Itoa(n) }
+
+func zzBtoa(b bool) string { return strconv.FormatBool(b) }
